@@ -479,3 +479,61 @@ def _(v):
     v.prove("round_trip_ratio_exactly_one", set(back) == set(reg) and all(r == 1.0 for r in ratios.values()), detail=repr(ratios))
     q = 7 * u.nanometre / u.second
     v.prove("round_trip_same_magnitudes", float(CU.unitless_in_registry(q, reg)) == float(CU.unitless_in_registry(q, back)))
+
+
+@harness("C09", "closeness_and_logarithmic_spacing", functions=[U + ":allclose", U + ":logspace_from_lin"], div_mode="assume", samples=0)
+def _(v):
+    """'closeness test' and 'logarithmic spacing' of the property: allclose on two quantities in two different compatible units decides
+    |a - b| <= rtol*|a| (+ atol) on the PHYSICAL values, whatever the two units are (so it is what the numerical comparison returns on magnitudes
+    in one common unit); incompatible dimensions are not close; logspace_from_lin hands numpy the logarithms of the magnitudes in the first
+    argument's unit and returns the result times that unit"""
+    from chempy import units as CU
+    from pyvc.qmodel import NPCall, Quantity
+    t = _table(v)
+    L = (1, 0, 0, 0, 0, 0, 0)
+    T = (0, 0, 1, 0, 0, 0, 0)
+    x1, x2, x3, y1 = t.generic("x1", L), t.generic("x2", L), t.generic("x3", L), t.generic("y1", T)
+    sx1, sx2, sx3 = (t.scale[k] for k in ("x1", "x2", "x3"))
+    a, b = v.real("a", lo=-100, hi=100), v.real("b", lo=-100, hi=100)
+    rtol, atol = v.real("rtol", lo=0, hi=1), v.real("atol", lo=0, hi=10)
+    from pyvc.sym import wrap, to_z3
+    import z3
+    iff = lambda got, want: wrap(to_z3(got) == to_z3(want)) if not isinstance(got, bool) else (wrap(to_z3(want)) if got else ~wrap(to_z3(want)))
+    r = v.call(CU.allclose, a * x1, b * x2, rtol)
+    v.prove("allclose.relative_on_physical_values", iff(r, abs(a * sx1 - b * sx2) <= abs(a * sx1) * rtol))
+    r = v.call(CU.allclose, a * x1, b * x2, rtol, atol * x3)
+    v.prove("allclose.absolute_term_in_any_unit", iff(r, abs(a * sx1 - b * sx2) <= abs(a * sx1) * rtol + atol * sx3))
+    r = v.call(CU.allclose, a * x1, b * y1, rtol)
+    v.prove("allclose.incompatible_dimensions_are_not_close", r is False or r == False)  # noqa: E712
+    r = v.call(CU.allclose, [a * x1, b * x1], [a * x2, b * x2], rtol)
+    v.prove("allclose.lists_element_wise", iff(r, (abs(a * sx1 - a * sx2) <= abs(a * sx1) * rtol) & (abs(b * sx1 - b * sx2) <= abs(b * sx1) * rtol)))
+    c, d = v.real("c", lo=0.1, hi=100), v.real("d", lo=0.1, hi=100)
+    r = v.call(CU.logspace_from_lin, c * x1, d * x2, 9)
+    v.prove("logspace.shape", isinstance(r, Quantity) and r.u == {"x1": 1} and isinstance(r.mag, NPCall) and r.mag.name == "exp2")
+    inner = r.mag.args[0]
+    v.prove("logspace.linear_spacing_of_logarithms", isinstance(inner, NPCall) and inner.name == "linspace" and inner.args[2] == 9)
+    lo_, hi_ = inner.args[0], inner.args[1]
+    from pyvc.sym import wrap_num
+    zlo, zhi = to_z3(lo_), to_z3(hi_)
+    v.prove("logspace.both_ends_are_log2_of_a_magnitude", zlo.decl().name() == "log2" and zhi.decl().name() == "log2" and zlo.num_args() == 1 and zhi.num_args() == 1)
+    v.prove_identity("logspace.start_in_first_unit", wrap_num(zlo.arg(0)), c)
+    v.prove_identity("logspace.stop_converted_to_first_unit", wrap_num(zhi.arg(0)) * sx1, d * sx2)
+
+
+@harness("C09", "closeness_of_containers_of_different_length", functions=[U + ":allclose"], kind="data")
+def _(v):
+    """the closeness test on containers: two containers of different length are never close (as with numpy's routine, a shape mismatch is not a
+    match) -- uniform-unit arrays, mixed-unit lists, and an empty container against a non-empty one; equal lengths are compared element-wise"""
+    import warnings
+    from chempy.units import allclose, default_units as u
+    out = {}
+    with warnings.catch_warnings():
+        warnings.simplefilter("ignore")
+        for label, a, b in (("array_prefix", [1, 2] * u.m, [1, 2, 3] * u.m), ("mixed_units_prefix", [1 * u.m, 2 * u.km], [1 * u.m, 2 * u.km, 3 * u.m]), ("empty_left", [], [1 * u.m]),
+                            ("empty_right", [1 * u.m], []), ("longer_left", [1 * u.m, 2 * u.km, 3 * u.m], [1 * u.m, 2 * u.km])):
+            try:
+                out[label] = bool(allclose(a, b))
+            except Exception:
+                out[label] = False
+    v.prove("different_lengths_are_not_close", not any(out.values()), detail=repr(out))
+    v.prove("equal_lengths_element_wise", bool(allclose([1 * u.m, 2 * u.km], [100 * u.cm, 2000 * u.m])) and not bool(allclose([1 * u.m, 2 * u.km], [100 * u.cm, 2001 * u.m])))
